@@ -17,9 +17,9 @@ TRUSTED_BASE = [
 PROPS = {
     "C01": dict(modules=["Cvss.Props.C01", "Cvss.Props.C01b", "Cvss.Props.ParseTieTransfer", "Cvss.Props.ParseTie", "Cvss.Props.C01v2", "Cvss.Props.C01v3", "Cvss.Props.C01v4"], ties=["Cvss.Props.ParseTie"], streams=["parse"]),
     "C02": dict(modules=["Cvss.Props.C02", "Cvss.Props.GenParsers", "Cvss.Props.ParseTie", "Cvss.Props.C02v2", "Cvss.Props.C02v3", "Cvss.Props.C02v4"], ties=["Cvss.Props.ParseTie"], streams=["parse", "obj"]),
-    "C03": dict(modules=["Cvss.Props.C03", "Cvss.Props.IEEE", "Cvss.Props.F64Facts", "Cvss.Proofs.Score3Base30", "Cvss.Proofs.Score3Base31", "Cvss.Proofs.Score3Close30", "Cvss.Proofs.Score3Close31", "Cvss.Proofs.Score3CloseDef", "Cvss.Proofs.Score3Codes30", "Cvss.Proofs.Score3Codes31", "Cvss.Proofs.Score3Env30_0", "Cvss.Proofs.Score3Env30_1", "Cvss.Proofs.Score3Env30_2", "Cvss.Proofs.Score3Env30_3", "Cvss.Proofs.Score3Env31_0", "Cvss.Proofs.Score3Env31_1", "Cvss.Proofs.Score3Env31_2", "Cvss.Proofs.Score3Env31_3", "Cvss.Proofs.Score3M30", "Cvss.Proofs.Score3M31", "Cvss.Proofs.Score3Main30", "Cvss.Proofs.Score3Main31", "Cvss.Proofs.Score3Roundup", "Cvss.Proofs.Score3Spec", "Cvss.Proofs.Score3T30", "Cvss.Proofs.Score3T31", "Cvss.Proofs.Score3Util"], ties=[], streams=["score:F:30,31"]),
-    "C04": dict(modules=["Cvss.Props.C04", "Cvss.Props.IEEE", "Cvss.Props.F64Facts", "Cvss.Proofs.Score4Main", "Cvss.Proofs.Score4TailAll", "Cvss.Proofs.Score4Groups", "Cvss.Proofs.Score4Loops", "Cvss.Proofs.Score4MV", "Cvss.Proofs.Score4Shape", "Cvss.Spec.V4Lemmas", "Cvss.Proofs.Score4Tail00", "Cvss.Proofs.Score4Tail01", "Cvss.Proofs.Score4Tail02", "Cvss.Proofs.Score4Tail03", "Cvss.Proofs.Score4Tail04", "Cvss.Proofs.Score4Tail05", "Cvss.Proofs.Score4Tail06", "Cvss.Proofs.Score4Tail07", "Cvss.Proofs.Score4Tail08", "Cvss.Proofs.Score4Tail09", "Cvss.Proofs.Score4Tail10", "Cvss.Proofs.Score4Tail11", "Cvss.Proofs.Score4Tail12", "Cvss.Proofs.Score4Tail13", "Cvss.Proofs.Score4Tail14", "Cvss.Proofs.Score4Tail15", "Cvss.Proofs.Score4Tail16", "Cvss.Proofs.Score4Tail17"], ties=[], streams=["score:F:40"]),
-    "C05": dict(modules=["Cvss.Props.C05", "Cvss.Props.IEEE", "Cvss.Props.F64Facts", "Cvss.Proofs.Score2Base", "Cvss.Proofs.Score2Defs", "Cvss.Proofs.Score2F", "Cvss.Proofs.Score2Main", "Cvss.Proofs.Score2Mono", "Cvss.Proofs.Score2Near", "Cvss.Proofs.Score2Ok", "Cvss.Proofs.Score2RB00", "Cvss.Proofs.Score2RB01", "Cvss.Proofs.Score2RB02", "Cvss.Proofs.Score2RB10", "Cvss.Proofs.Score2RB11", "Cvss.Proofs.Score2RB12", "Cvss.Proofs.Score2RB20", "Cvss.Proofs.Score2RB21", "Cvss.Proofs.Score2RB22", "Cvss.Proofs.Score2T20", "Cvss.Proofs.Score2T21", "Cvss.Proofs.Score2T22", "Cvss.Proofs.Score2T23", "Cvss.Proofs.Score2T2Mono", "Cvss.Proofs.Score2Tables", "Cvss.Proofs.Score2Wf"], ties=[], streams=["score:F:20"]),
+    "C03": dict(modules=["Cvss.Props.NoPanic30", "Cvss.Props.NoPanic31", "Cvss.Props.C03", "Cvss.Props.IEEE", "Cvss.Props.F64Facts", "Cvss.Proofs.Score3Base30", "Cvss.Proofs.Score3Base31", "Cvss.Proofs.Score3Close30", "Cvss.Proofs.Score3Close31", "Cvss.Proofs.Score3CloseDef", "Cvss.Proofs.Score3Codes30", "Cvss.Proofs.Score3Codes31", "Cvss.Proofs.Score3Env30_0", "Cvss.Proofs.Score3Env30_1", "Cvss.Proofs.Score3Env30_2", "Cvss.Proofs.Score3Env30_3", "Cvss.Proofs.Score3Env31_0", "Cvss.Proofs.Score3Env31_1", "Cvss.Proofs.Score3Env31_2", "Cvss.Proofs.Score3Env31_3", "Cvss.Proofs.Score3M30", "Cvss.Proofs.Score3M31", "Cvss.Proofs.Score3Main30", "Cvss.Proofs.Score3Main31", "Cvss.Proofs.Score3Roundup", "Cvss.Proofs.Score3Spec", "Cvss.Proofs.Score3T30", "Cvss.Proofs.Score3T31", "Cvss.Proofs.Score3Util"], ties=[], streams=["score:F:30,31"]),
+    "C04": dict(modules=["Cvss.Props.NoPanic40", "Cvss.Props.C04", "Cvss.Props.IEEE", "Cvss.Props.F64Facts", "Cvss.Proofs.Score4Main", "Cvss.Proofs.Score4TailAll", "Cvss.Proofs.Score4Groups", "Cvss.Proofs.Score4Loops", "Cvss.Proofs.Score4MV", "Cvss.Proofs.Score4Shape", "Cvss.Spec.V4Lemmas", "Cvss.Proofs.Score4Tail00", "Cvss.Proofs.Score4Tail01", "Cvss.Proofs.Score4Tail02", "Cvss.Proofs.Score4Tail03", "Cvss.Proofs.Score4Tail04", "Cvss.Proofs.Score4Tail05", "Cvss.Proofs.Score4Tail06", "Cvss.Proofs.Score4Tail07", "Cvss.Proofs.Score4Tail08", "Cvss.Proofs.Score4Tail09", "Cvss.Proofs.Score4Tail10", "Cvss.Proofs.Score4Tail11", "Cvss.Proofs.Score4Tail12", "Cvss.Proofs.Score4Tail13", "Cvss.Proofs.Score4Tail14", "Cvss.Proofs.Score4Tail15", "Cvss.Proofs.Score4Tail16", "Cvss.Proofs.Score4Tail17"], ties=[], streams=["score:F:40"]),
+    "C05": dict(modules=["Cvss.Props.NoPanic20", "Cvss.Props.C05", "Cvss.Props.IEEE", "Cvss.Props.F64Facts", "Cvss.Proofs.Score2Base", "Cvss.Proofs.Score2Defs", "Cvss.Proofs.Score2F", "Cvss.Proofs.Score2Main", "Cvss.Proofs.Score2Mono", "Cvss.Proofs.Score2Near", "Cvss.Proofs.Score2Ok", "Cvss.Proofs.Score2RB00", "Cvss.Proofs.Score2RB01", "Cvss.Proofs.Score2RB02", "Cvss.Proofs.Score2RB10", "Cvss.Proofs.Score2RB11", "Cvss.Proofs.Score2RB12", "Cvss.Proofs.Score2RB20", "Cvss.Proofs.Score2RB21", "Cvss.Proofs.Score2RB22", "Cvss.Proofs.Score2T20", "Cvss.Proofs.Score2T21", "Cvss.Proofs.Score2T22", "Cvss.Proofs.Score2T23", "Cvss.Proofs.Score2T2Mono", "Cvss.Proofs.Score2Tables", "Cvss.Proofs.Score2Wf"], ties=[], streams=["score:F:20"]),
     "C06": dict(modules=["Cvss.Props.C06", "Cvss.Props.GenParsers", "Cvss.Props.ParseTie", "Cvss.Props.C06v2", "Cvss.Props.C06v3", "Cvss.Props.C06v4"], ties=["Cvss.Props.ParseTie"], streams=["parse"]),
     "C07": dict(modules=["Cvss.Props.C07", "Cvss.Props.C07v4"], ties=[], streams=["obj"]),
     "C08": dict(modules=["Cvss.Props.C08", "Cvss.Props.GenParsers", "Cvss.Props.ParseTie", "Cvss.Props.C08v2", "Cvss.Props.C08v3", "Cvss.Props.C08v4"], ties=["Cvss.Props.ParseTie"], streams=["parse", "obj"]),
